@@ -186,6 +186,19 @@ Theorem default_get_setdefault_no_insert : forall (K V : Type) (keqb : K -> K ->
 Proof. exact default_get_setdefault_no_insert_r. Qed.
 Print Assumptions default_get_setdefault_no_insert.
 
+(* The defaulting variant on EVERY history without lower(): it is the reference map with default d0 except
+   that get(k, d) / setdefault(k, x) of an absent key yield d0 without inserting and pop of an absent key raises
+   KeyError even with a default (Spec/CIMap.dspec_step) -- all results and all observations, by induction over
+   the operation list. *)
+Theorem default_run_refines_quirks : forall (K V : Type) (keqb : K -> K -> bool) (lower : K -> K),
+  (forall a b : K, reflect (a = b) (keqb a b)) ->
+  (forall k : K, lower (lower k) = lower k) ->
+  forall (d0 : V) (probes : list K) (ops : list (op K V)),
+  existsb (is_lower_op K V) ops = false ->
+  run K V keqb lower probes (default_init K V (FacVal d0)) ops = dspec_run K V keqb lower d0 probes [] ops.
+Proof. exact Proofs.CIDict.default_run_refines_quirks. Qed.
+Print Assumptions default_run_refines_quirks.
+
 (* ---- CaseInsensitiveSet ---- *)
 
 (* invariant: in every reachable set, _set is the key set of _keys, without repetition, and every
@@ -257,5 +270,7 @@ Example ex_default :
   cls_ok str Z c (Some 0%Z) /\ ci_contains str Z str_eqb lower c (s2l "a") = false /\
   ci_items str Z str_eqb lower c = EOk [(s2l "B", 10%Z)].
 Proof. vm_compute. auto. Qed.
+Example ex_no_lower : existsb (is_lower_op str Z) (ex_dops ++ [OPop (s2l "zz") (Some 1%Z); OSetdefault (s2l "q") 2%Z]) = false.
+Proof. reflexivity. Qed.
 Example ex_nodup_pairs : NoDup (map fst [(s2l "a", 1%Z); (s2l "A", 2%Z)]).
 Proof. repeat constructor; cbn; intuition discriminate. Qed.
